@@ -109,6 +109,31 @@ class Checker:
     def note(self, text: str) -> None:
         self.notes.append(text)
 
+    def import_rules(self, donor: str, mapping: Dict[str, str], why: str) -> None:
+        """Rules that are necessary conditions of more than one property are written once, in the rule set of the property
+        they were first written for; another property that also depends on them evaluates the donor's rule set and takes the
+        obligations of the named rules under its own rule ids (`mapping`: donor rule id -> own rule id).  One level only."""
+        import importlib
+        if getattr(self, '_importing', False):
+            return
+        mod = importlib.import_module('sa.rules.%s' % donor.lower())
+        sub = Checker(self.prop, self.prog, self.tier, self.repo)
+        sub._importing = True      # type: ignore[attr-defined]
+        mod.run(sub)
+        for old, new in mapping.items():
+            if old not in sub.rules:
+                raise AnalysisError('internal: %s has no rule %s to share' % (donor, old))
+            self.rule(new, '[shared with %s: %s] %s' % (old, why, sub.rules[old]), sub.min_counts.get(old, 1))
+        for ob in sub.obs:
+            if ob.rule in mapping:
+                ob.rule = mapping[ob.rule]
+                self.obs.append(ob)
+        self.paths += sub.paths
+        self.functions |= sub.functions
+        for nt in sub.notes:
+            if any(old in nt for old in mapping):
+                self.notes.append(nt)
+
 
 def load_known() -> Dict[str, Any]:
     if not os.path.exists(KNOWN_FILE):
